@@ -25,7 +25,7 @@ domain, unrelated names) is never reported. A sampled live family starts pairs o
 each to report exactly the other (real announce(), receive loops, get_known_services()); a passive witness socket on the mDNS group counts the response datagrams of each peer, and a listener \
 that reports nothing in 3 consecutive rounds although the witness saw the other peer's records at least twice per round is a violation (a single incomplete round is inconclusive). Escape/unescape: bounded-exhaustive over {a . \\ e-acute space} up to length 7 (quick) / 8 (thorough) plus random Unicode. non-trivial = history \
 with at least one peer announcement or an escape string containing a dot or backslash; distinct = hash of the history / string",
-        assumptions: &["attribute keys are non-empty, free of '=' and do not differ only by case", "re-announcements repeat the same description", "TTLs are large (expiry is C20's subject)"],
+        assumptions: &["attribute keys are non-empty, free of '=' and do not differ only by case", "re-announcements repeat the same description", "TTLs are large (expiry is C20's subject), except that a peer may say goodbye with TTL 0 and advertise again at once"],
         exhaustive: false,
         min_distinct: 1000,
     }
@@ -174,7 +174,7 @@ fn history(ctx: &mut Ctx, idx: u64) {
     let ttl = 4500;
     let case_log = |log: &Vec<String>| json!({"family": "history", "idx": idx, "service": service_s, "mode": mode, "steps": log});
     for step in 0..steps {
-        let kind = if step < npeers { 0 } else { r.below(8) };
+        let kind = if step < npeers { 0 } else { r.below(9) };
         let mut ingest = |bytes: &[u8], store: &mut ResourceRecordManager<'static>, ctx: &mut Ctx, log: &Vec<String>| {
             let res = monitor::guard(|| {
                 let pk = Packet::parse(bytes).map_err(|e| format!("{:?}", e))?;
@@ -204,6 +204,16 @@ fn history(ctx: &mut Ctx, idx: u64) {
                         continue;
                     }
                 };
+                // sometimes the first thing seen of the peer is its goodbye (TTL 0), straight before the announcement
+                if mode == 0 && r.chance(1, 5) {
+                    if let Ok(v) = peers[k].info(r.next()).into_records(&fname, 0) {
+                        if let Ok(b) = announce_bytes(v.into_iter().map(|x| x.into_owned()).collect(), &mut r) {
+                            log.push(format!("peer {} says goodbye (TTL 0)", k));
+                            ctx.count("goodbye_straight_before_an_announcement");
+                            ingest(&b, &mut store, ctx, &log);
+                        }
+                    }
+                }
                 log.push(format!("peer {} announces {:?}", k, peers[k]));
                 match announce_bytes(recs, &mut r) {
                     Ok(b) => {
@@ -255,6 +265,32 @@ fn history(ctx: &mut Ctx, idx: u64) {
                 log.push(format!("foreign traffic owned by {}", f));
                 if let Ok(b) = announce_bytes(recs, &mut r) {
                     ingest(&b, &mut store, ctx, &log);
+                }
+            }
+            8 => {
+                // a peer says goodbye (the same records with TTL 0) and then advertises again: it is discovered again
+                // (what the channel delivers for a goodbye is not defined by the property: channel-less mode only)
+                if mode == 0 {
+                    let k = r.usize(0, npeers - 1);
+                    let fname = Name::new(&full_name(&peers[k].name, service_s)).unwrap().into_owned();
+                    let mut ok = true;
+                    for t in [0u32, ttl] {
+                        let recs: Vec<_> = match peers[k].info(r.next()).into_records(&fname, t) {
+                            Ok(v) => v.into_iter().map(|x| x.into_owned()).collect(),
+                            Err(_) => { ok = false; break; }
+                        };
+                        match announce_bytes(recs, &mut r) {
+                            Ok(b) => ingest(&b, &mut store, ctx, &log),
+                            Err(_) => { ok = false; break; }
+                        }
+                    }
+                    if ok {
+                        log.push(format!("peer {} says goodbye (TTL 0) and advertises again: {:?}", k, peers[k]));
+                        ctx.count("goodbye_then_readvertised");
+                        if !announced.contains(&k) {
+                            announced.push(k);
+                        }
+                    }
                 }
             }
             _ => {
